@@ -5,6 +5,7 @@ mod pattern;
 mod service;
 mod error;
 mod path;
+mod sigv4;
 
 fn main() {
     let args: Vec<String> = std::env::args().skip(1).collect();
@@ -16,6 +17,9 @@ fn main() {
         Some("route") => service::route(&args[1..]),
         Some("meta") => service::meta(&args[1..]),
         Some("amz-date") => service::amz_date(&args[1..]),
+        Some("sigv4") => sigv4::one(&args[1..]),
+        Some("sigv4-search") => sigv4::search(),
+        Some("window") => sigv4::window(&args[1..]),
         Some("path-search") => path::search(),
         Some("path") => path::one(&args[1..]),
         Some("error-table") => error::table(),
